@@ -1,6 +1,7 @@
 #!/usr/bin/env python3
-"""Translator for the finite constant tables of tea-time (DESIGN 10.2, "second tie"): regenerates coq/Gen/SrcTables.v from
-the Rust SOURCE TEXT of /repo on every run of C16 / C17 / C18, so that `coq/Proofs/SrcTablesOk.v` — theorems stating that
+"""Translator for the finite constant tables of tea-time and the min_periods shapes of the rolling family (DESIGN 10.2,
+"second tie"): regenerates coq/Gen/SrcTables.v from
+the Rust SOURCE TEXT of /repo on every run of C16 / C17 / C18 (and C05 / C06), so that `coq/Proofs/SrcTablesOk.v` — theorems stating that
 the tables the source spells out are exactly the tables of the hand-written model — is re-checked against what the code says
 now.  A changed constant, a swapped arm, div_euclid replaced by `/`, a unit moved to another accumulator: the generated file
 changes and the conformance theorem no longer compiles (proof obligation broken -> the check then relies on the
@@ -12,9 +13,108 @@ shape the translator fails loudly (exit 2) rather than guess.
   tea-time/src/timedelta.rs the unit arms  `"ns" => nsecs = add_i64(nsecs, n, K)...`  of `TimeDelta::parse`
   tea-time/src/datetime.rs  `const TIME_RULE_VEC: [&str; N] = [...]` (formats DateTime::parse tries, in order) and the default
                             format of `strftime`
+
+Rolling family (C05 / C06; conformance in coq/Proofs/SrcTablesRoll.v): for every `fn ts_*` of
+  tea-rolling/src/{features,cmp,norm,binary,reg}.rs and tevec/src/rolling.rs
+the SHAPE of the effective-min_periods computation in the function body (comments stripped first, so a commented-out clamp
+is not a clamp):
+    [let window = window.min(self.len());  |  let window = min(self.len(), window);]          -> clamp_first
+    let min_periods = min_periods.unwrap_or(window / 2)[.min(window)][.max(K)];               -> min_window, K (0 if absent)
+or "no min_periods parameter at all" (ts_fdiff).  Exactly one `let min_periods`, at most one `let window`, both at the top
+level of the body, no other binding of / assignment to either name; the clamp, if present, must precede the min_periods
+line.  Anything else: exit 2.
 """
 import os, re, sys
 ROOT = os.path.dirname(os.path.dirname(os.path.abspath(__file__)))
+sys.path.insert(0, os.path.dirname(os.path.abspath(__file__)))
+import anchors
+
+ROLL_FILES = ["tea-rolling/src/features.rs", "tea-rolling/src/cmp.rs", "tea-rolling/src/norm.rs",
+              "tea-rolling/src/binary.rs", "tea-rolling/src/reg.rs", "tevec/src/rolling.rs"]
+
+class Unrecognised(Exception):
+    pass
+
+def _depth_at(body, pos):
+    """brace depth of position `pos` inside `body` (which starts with the opening brace of the function), string literals skipped"""
+    d, i = 0, 0
+    while i < pos:
+        ch = body[i]
+        if ch == '"':
+            j = i + 1
+            while j < len(body) and body[j] != '"': j += 2 if body[j] == "\\" else 1
+            i = j
+        elif ch == "{": d += 1
+        elif ch == "}": d -= 1
+        i += 1
+    return d
+
+RE_MP = re.compile(r"^min_periods\s*\.\s*unwrap_or\(\s*window\s*/\s*2\s*\)(\s*\.\s*min\(\s*window\s*\))?(\s*\.\s*max\(\s*([0-9_]+)\s*\))?$")
+RE_CLAMP = [re.compile(r"^window\s*\.\s*min\(\s*self\s*\.\s*len\(\s*\)\s*\)$"),
+            re.compile(r"^(?:std::cmp::|cmp::)?min\(\s*self\s*\.\s*len\(\s*\)\s*,\s*window\s*\)$"),
+            re.compile(r"^(?:std::cmp::|cmp::)?min\(\s*window\s*,\s*self\s*\.\s*len\(\s*\)\s*\)$")]
+
+def mp_shape(fname, name, text, outside):
+    """text: normalised `fn name ... { ... }` (comments stripped).  Returns ("shape", clamp_first, min_window, k) or ("absent",)"""
+    def bad(why): raise Unrecognised("%s::%s: %s" % (fname, name, why))
+    b0 = text.find("{")
+    if b0 < 0: bad("no body")
+    sig, body = text[:b0], text[b0:]
+    params = re.findall(r"\bmin_periods\s*:\s*([^,)]+)", sig)
+    if not params:
+        if re.search(r"\bmin_periods\b", text): bad("min_periods is mentioned but is not a parameter")
+        if re.search(r"\blet\s+(mut\s+)?window\b", body) or re.search(r"\bwindow\s*[-+*/%|&^]?=[^=]", body):
+            bad("window is rebound in a function without min_periods")
+        return ("absent",)
+    if len(params) != 1 or params[0].strip() != "Option<usize>": bad("min_periods parameter is not `Option<usize>`: %r" % (params,))
+    if not re.search(r"\bwindow\s*:\s*usize\b", sig): bad("no `window: usize` parameter")
+    # every binding of / assignment to the two names
+    lets = [(m.start(2), m.group(2), m.group(3), bool(m.group(1))) for m in
+            re.finditer(r"\blet\s+(mut\s+)?(min_periods|window)\b\s*(?::[^=;]*)?=\s*([^;]*);", body)]
+    nlet = len(re.findall(r"\blet\s+(?:mut\s+)?\(?[^=;]*\b(min_periods|window)\b[^=;]*=[^=]", body))
+    if nlet != len(lets): bad("a binding of min_periods / window in an unrecognised form")
+    if re.search(r"(?<![.\w])(min_periods|window)\s*(?:[-+*/%|&^]|<<|>>)?=[^=]", re.sub(r"\blet\s+(mut\s+)?(min_periods|window)\b", "let_", body)):
+        bad("min_periods / window is assigned to")
+    for pos, nm, expr, mut in lets:
+        if mut: bad("`let mut %s`" % nm)
+        if _depth_at(body, pos) != 1: bad("`let %s` is not at the top level of the body" % nm)
+    mps = [l for l in lets if l[1] == "min_periods"]
+    wins = [l for l in lets if l[1] == "window"]
+    if len(mps) != 1: bad("%d `let min_periods` statements (exactly one expected)" % len(mps))
+    if len(wins) > 1: bad("%d `let window` statements (at most one expected)" % len(wins))
+    m = RE_MP.match(mps[0][2].strip())
+    if not m: bad("min_periods expression not recognised: `%s`" % mps[0][2].strip())
+    min_window = m.group(1) is not None
+    k = int(m.group(3).replace("_", "")) if m.group(2) else 0
+    clamp = False
+    if wins:
+        e = wins[0][2].strip()
+        which = [i for i, r in enumerate(RE_CLAMP) if r.match(e)]
+        if not which: bad("window expression not recognised: `%s`" % e)
+        if which[0] > 0 and not e.startswith(("std::cmp::", "cmp::")):
+            imported = bool(re.search(r"\buse\s+std::cmp::min\s*;", outside)) or any(
+                "min" in [x.strip() for x in grp.split(",")] for grp in re.findall(r"\buse\s+std::cmp::\{([^}]*)\}\s*;", outside))
+            if not imported: bad("`min(..)` is used for the clamp but std::cmp::min is not imported under that name")
+            if re.search(r"\b(let\s+(mut\s+)?|fn\s+)min\b", body[:wins[0][0]]): bad("`min` is shadowed before the clamp")
+        if wins[0][0] > mps[0][0]: bad("the window clamp comes AFTER the min_periods line")
+        clamp = True
+    # the first mention of a (re)bound name in the body must be its recognised `let`
+    for l in mps + wins:
+        if re.search(r"\b%s\b" % l[1], body).start() != l[0]: bad("%s is used before its `let`" % l[1])
+    return ("shape", clamp, min_window, k)
+
+def parse_rolling(repo):
+    table, origin = {}, {}
+    for f in ROLL_FILES:
+        src = open(os.path.join(repo, f), encoding="utf8").read()
+        fns = anchors.functions(src)
+        outside = fns.get("(outside functions)", "")
+        for key, text in fns.items():
+            if not key.startswith("ts_"): continue
+            if "#" in key or key in table: raise Unrecognised("%s: function %s defined more than once (also in %s)" % (f, key, origin.get(key.split("#")[0], f)))
+            table[key] = mp_shape(f, key, text, outside); origin[key] = f
+    if not table: raise Unrecognised("no `fn ts_*` found")
+    return table, origin
 
 def strip_comments(s):
     s = re.sub(r"//[^\n]*", "", s)
@@ -53,16 +153,32 @@ def parse(repo):
     if not md: raise SystemExit("gen_tables: default format of strftime not found")
     return consts, arms, guards, units, rules, md.group(1)
 
+def render_rolling(table, origin):
+    def b(x): return "true" if x else "false"
+    def sh(v): return "MpAbsent" if v[0] == "absent" else "MpShape %s %s %d%%nat" % (b(v[1]), b(v[2]), v[3])
+    names = sorted(table)
+    return ["(* ---- rolling family: the shape of the effective-min_periods computation of every `fn ts_*` of",
+            "   " + ", ".join(ROLL_FILES) + " (sorted by name).",
+            "   MpShape clamp_first min_window k:  [let window = min(self.len(), window);]  let min_periods =",
+            "   min_periods.unwrap_or(window / 2)[.min(window)][.max(k)];   MpAbsent: the function takes no min_periods. *)",
+            "Inductive src_mp_shape := MpShape (clamp_first min_window : bool) (max_k : nat) | MpAbsent.",
+            "Definition src_min_periods : list (string * src_mp_shape) :=",
+            "  [" + ";\n   ".join('("%s", %s)' % (n, sh(table[n])) for n in names) + "].",
+            "(* file each entry was read from *)",
+            "Definition src_min_periods_origin : list (string * string) :=",
+            "  [" + ";\n   ".join('("%s", "%s")' % (n, origin[n]) for n in names) + "].", ""]
+
 def coq_z(v): return str(v) if v >= 0 else "(%d)" % v
 
-def render(consts, arms, guards, units, rules, dflt):
+def render(consts, arms, guards, units, rules, dflt, roll=None):
     def val(k):
         if re.fullmatch(r"[0-9_]+", k): return int(k.replace("_", ""))
         if k not in consts: raise SystemExit("gen_tables: unknown constant %s" % k)
         return consts[k]
     u = dict(Nanosecond="Nano", Microsecond="Micro", Millisecond="Milli", Second="Sec")
-    out = ["(* GENERATED by tools/gen_tables.py from tea-time/src/convert.rs and tea-time/src/timedelta.rs — do not edit.",
-           "   Regenerated from /repo's working tree on every run of the C16 / C17 / C18 checks. *)",
+    out = ["(* GENERATED by tools/gen_tables.py from tea-time/src/{convert,timedelta,datetime}.rs and, for the rolling family,",
+           "   tea-rolling/src/{features,cmp,norm,binary,reg}.rs and tevec/src/rolling.rs — do not edit.",
+           "   Regenerated from the repo's working tree on every run of the C16 / C17 / C18 and C05 / C06 checks. *)",
            "From Coq Require Import ZArith List String.", "From Tevec Require Import Model.Time.",
            "Import ListNotations.", "Open Scope Z_scope.", "Open Scope string_scope.", "",
            "Inductive src_op := OpDivEuclid | OpMul | OpDivTrunc | OpWrapMul.", "",
@@ -82,6 +198,7 @@ def render(consts, arms, guards, units, rules, dflt):
            "(* datetime.rs: TIME_RULE_VEC in source order, and the format strftime(None) uses *)",
            "Definition src_time_rules : list string :=", "  [" + ";\n   ".join('"%s"' % r for r in rules) + "].",
            'Definition src_strftime_default : string := "%s".' % dflt, ""]
+    if roll is not None: out += render_rolling(*roll)
     return "\n".join(out)
 
 def main(argv):
@@ -89,7 +206,10 @@ def main(argv):
     try:
         consts, arms, guards, units, rules, dflt = parse(repo)
         if len(arms) == 0 or len(units) == 0: raise SystemExit("gen_tables: no arms / units recognised")
-        text = render(consts, arms, guards, units, rules, dflt)
+        roll = parse_rolling(repo)
+        text = render(consts, arms, guards, units, rules, dflt, roll)
+    except Unrecognised as e:
+        print("gen_tables: rolling family, shape not recognised: %s" % (e,)); return 2
     except (OSError, ValueError, KeyError) as e:
         print("gen_tables: cannot translate: %r" % (e,)); return 2
     path = os.path.join(ROOT, "coq", "Gen", "SrcTables.v")
@@ -97,7 +217,7 @@ def main(argv):
     if old != text:
         os.makedirs(os.path.dirname(path), exist_ok=True)
         open(path, "w").write(text)
-        print("gen_tables: coq/Gen/SrcTables.v regenerated (%d consts, %d arms, %d units, %d formats)" % (len(consts), len(arms), len(units), len(rules)))
+        print("gen_tables: coq/Gen/SrcTables.v regenerated (%d consts, %d arms, %d units, %d formats, %d rolling min_periods shapes)" % (len(consts), len(arms), len(units), len(rules), len(roll[0])))
     return 0
 
 if __name__ == "__main__":
